@@ -1,7 +1,8 @@
 use crate::runner::{Ctx, Property};
 
 pub mod c01;
+pub mod c15;
 
 pub fn all(ctx: &Ctx) -> Vec<Property> {
-    vec![c01::property(ctx)]
+    vec![c01::property(ctx), c15::property(ctx)]
 }
